@@ -384,9 +384,14 @@ func runWorker(master uint64, worker, workers, scheds, maxProgs int, budget floa
 			rng := simrt.NewRng(simrt.Derive(wseed, 0x5c, uint64(s)))
 			var pol simrt.Policy
 			if s == 0 {
-				pol = simrt.Policy{Mode: "serial", SerialOrder: rng.Perm(len(w.Tasks))}
+				pol = simrt.Policy{Mode: "serial", SerialOrder: rng.Perm(len(w.Tasks)), MaxYields: 1 << 40}
 			} else {
 				pol = genPolicy(rng, len(w.Tasks), estYields)
+				// the cap that turns a livelock into a finding scales with what the workload needs
+				// when nobody is in anybody's way
+				if 40*estYields > 200000 {
+					pol.MaxYields = 40 * estYields
+				}
 			}
 			cfg := RunCfg{Seed: rng.Uint64(), PermSeed: simrt.Derive(wseed, 0x9e, uint64(s)), Policy: pol}
 			writeMarker(s, cfg)
@@ -591,7 +596,7 @@ func runWorker(master uint64, worker, workers, scheds, maxProgs int, budget floa
 				// exact-replay self-check: the recorded switch list must reproduce the run
 				if !r.Deadlock && !r.Capped && !nativeFallback() {
 					fc := cfg
-					fc.Policy = simrt.Policy{Mode: "forced", Forced: r.Switches}
+					fc.Policy = simrt.Policy{Mode: "forced", Forced: r.Switches, MaxYields: cfg.Policy.MaxYields}
 					r2 := runSim(w, prep, warm, fc, false)
 					if r2.Sig != r.Sig || r2.Deadlock || r2.Capped {
 						st.Probes["replay_signature_mismatch"]++
@@ -610,7 +615,7 @@ func runWorker(master uint64, worker, workers, scheds, maxProgs int, budget floa
 				if !seenKeys[key] {
 					seenKeys[key] = true
 					fcfg := cfg
-					fcfg.Policy = simrt.Policy{Mode: "forced", Forced: r.Switches}
+					fcfg.Policy = simrt.Policy{Mode: "forced", Forced: r.Switches, MaxYields: cfg.Policy.MaxYields}
 					rp := &Replay{Property: "C10", MasterSeed: master, RunIndex: idx, SchedIndex: s, Workload: w, Run: fcfg, Violation: v, FindingKey: key,
 						Sig: fmt.Sprintf("%016x", r.Sig), Note: "found under policy " + policyName(pol), Native: nativeFallback(), SimsFirst: simsFirst}
 					res.Violations = append(res.Violations, rp)
